@@ -11,6 +11,7 @@ import (
 	"net/http"
 	"sort"
 	"strings"
+	"time"
 
 	vegeta "github.com/tsenart/vegeta/v12/lib"
 	"verifharness/internal/ev"
@@ -20,6 +21,12 @@ type scriptCfg struct {
 	Workers  uint64 `json:"workers"`
 	Max      uint64 `json:"max_workers"`
 	MaxFirst bool   `json:"max_workers_option_first,omitempty"` // option order MaxWorkers, Workers
+	// Wait is what the gate pacer answers for a tick: 0 ("behind schedule, go now") or a small
+	// positive wait ("on time"); the pool must grow on demand in both cases.
+	Wait time.Duration `json:"pacer_wait_ns,omitempty"`
+	// Timeout > 0 sets the client timeout (vegeta.Timeout) and enables the event I: nothing happens
+	// for more than two timeouts while no request is in flight (an idle stretch of the attack).
+	Timeout time.Duration `json:"client_timeout_ns,omitempty"`
 }
 
 func (c scriptCfg) options() []func(*vegeta.Attacker) {
@@ -78,6 +85,7 @@ type scriptExec struct {
 	pDelivered  bool
 	blockedTick bool
 	armedCount  int
+	idles       int
 	drainMode   string
 	failed      bool
 	polls       int64
@@ -94,13 +102,17 @@ func newScriptExec(run *ev.Run, cfg scriptCfg, filter string) *scriptExec {
 // wake-up is only open then).
 func newScriptExecBurst(run *ev.Run, cfg scriptCfg, filter string, burst int) *scriptExec {
 	x := &scriptExec{run: run, cfg: cfg, filter: filter, received: map[uint64]bool{}}
-	x.pacer = &gatePacer{auto: burst}
+	x.pacer = &gatePacer{auto: burst, autoWait: cfg.Wait}
 	x.rt = &gateTransport{}
 	x.tg = &recTargeter{targets: defaultTargets()}
 	if scriptExecs++; scriptExecs%2 == 0 {
 		x.tg.err = vegeta.ErrNoTargets // the error an exhausted lazy targeter returns
 	}
-	x.atk = vegeta.NewAttacker(append([]func(*vegeta.Attacker){vegeta.Client(&http.Client{Transport: x.rt})}, cfg.options()...)...)
+	opts := append([]func(*vegeta.Attacker){vegeta.Client(&http.Client{Transport: x.rt})}, cfg.options()...)
+	if cfg.Timeout > 0 {
+		opts = append(opts, vegeta.Timeout(cfg.Timeout))
+	}
+	x.atk = vegeta.NewAttacker(opts...)
 	x.results = x.atk.Attack(x.tg.Targeter(), x.pacer, 0, "scripted")
 	x.observe()
 	return x
@@ -192,6 +204,9 @@ func (x *scriptExec) enabled() []string {
 	if x.armedCount < 1 && !st.Closed && !x.tg.armed.Load() {
 		e = append(e, "E")
 	}
+	if x.cfg.Timeout > 0 && x.idles < 2 && st.InTransport == 0 && !st.Closed {
+		e = append(e, "I")
+	}
 	return e
 }
 
@@ -240,7 +255,7 @@ func (x *scriptExec) apply(e string) {
 			}
 			break
 		}
-		p.decide <- paceDecision{0, false}
+		p.decide <- paceDecision{x.cfg.Wait, false}
 		x.observe()
 		if x.failed || stopBefore {
 			break // after a stop signal the tick may legitimately be dropped
@@ -296,6 +311,14 @@ func (x *scriptExec) apply(e string) {
 	case "E":
 		x.tg.armed.Store(true)
 		x.armedCount++
+	case "I":
+		// an idle stretch longer than the client timeout; real time passes, nothing else happens
+		x.idles++
+		time.Sleep(2*x.cfg.Timeout + 5*time.Millisecond)
+		x.observe()
+		if x.st.Started != before.Started || x.st.PaceCalls != before.PaceCalls {
+			x.violate("C02", "progress-while-idle", "scripted", fmt.Sprintf("hits started %d -> %d, pace calls %d -> %d while no event was delivered", before.Started, x.st.Started, before.PaceCalls, x.st.PaceCalls), "")
+		}
 	}
 	x.run.Distinct("state:" + x.st.sig())
 }
